@@ -1427,7 +1427,7 @@ impl Gen {
         (ws, second)
     }
 
-    fn next(&mut self, sim: &Sim) -> Option<OpRec> {
+    fn next(&mut self, sim: &mut Sim) -> Option<OpRec> {
         if self.issued >= self.cfg.max_ops {
             return None;
         }
@@ -1435,8 +1435,18 @@ impl Gen {
         let perm = self.rng.next_u64();
         // the generator looks at sums over the holdings map: fix its iteration order too (N3)
         alator::verif::set_positions_seed(Some(perm));
-        let o = sim.observe();
+        let o = catch(|| sim.observe());
         alator::verif::set_positions_seed(None);
+        let o = match o {
+            Ok(o) => o,
+            Err(p) => {
+                // a public getter panicked: that is a violation (the getters are C11's subject), not a
+                // harness fault
+                sim.ctx.fail("C11", "sut-panic", "getter", format!("a Portfolio getter panicked: {p}"));
+                sim.aborted = true;
+                return None;
+            }
+        };
         let modes = gen_modes(&mut self.rng, self.cfg.eager_only, self.cfg.delay_p);
         let op = if self.issued == 1 && !self.rng.one_in(8) {
             BOp::Deposit { amt: X(self.amount()) }
@@ -1556,7 +1566,7 @@ impl Engine for E3 {
         }
         let mut first = true;
         while !sim.ctx.failed() && !sim.aborted {
-            let Some(mut rec) = gen.next(&sim) else { break };
+            let Some(mut rec) = gen.next(&mut sim) else { break };
             if first {
                 rec.modes = first_modes.clone();
                 first = false;
